@@ -510,6 +510,22 @@ pub fn run_tty(o: &Opts) {
     let mut rng = Rng::new(o.seed.wrapping_mul(40503) ^ (o.shard as u64) << 32 ^ 0x20_7717);
     let total = if o.thorough { 30 } else { 5 };
     let mut kinds: BTreeMap<String, u64> = BTreeMap::new();
+    // lines whose cursor column reaches the 16-bit limit of the terminal backend (prompt + cursor
+    // = 0xFFFF and beyond): recalled from the history, submitted, then `exit`
+    let mut directed: Vec<Case> = Vec::new();
+    for (i, n) in [65_529usize, 65_530, 70_000].into_iter().enumerate() {
+        if (i + 3) % o.nshards == o.shard {
+            let line = format!("echo @{}", "a".repeat(n - 6));
+            let mut keys = vec![Key::Up, Key::Left, Key::Right, Key::Enter];
+            keys.extend(keys_of("exit"));
+            keys.push(Key::Enter);
+            directed.push(Case { hist: vec![line], keys });
+        }
+    }
+    for c in directed {
+        *kinds.entry("long-line-session".into()).or_default() += 1;
+        sink.put(&req(&c), &crate::tty::debug_session(&dir, &c.hist, &c.keys));
+    }
     for _ in 0..total {
         let c = tty_case(&mut rng);
         for k in &c.keys {
